@@ -3,3 +3,4 @@ from . import clients  # noqa: F401
 from . import determinism  # noqa: F401
 from . import results  # noqa: F401
 from . import package  # noqa: F401
+from . import typemap  # noqa: F401
